@@ -662,9 +662,9 @@ func prCanonical(s string) bool {
 }
 
 func c15Gen(r *rand.Rand, tier string) []Case {
-	n := 40
+	n := 100
 	if tier == "thorough" {
-		n = 400
+		n = 1000
 	}
 	var out []Case
 	for i := 0; i < n; i++ {
